@@ -114,6 +114,7 @@ Proof.
   - destruct (find_job st j) as [x|]; [|reflexivity]. destruct (j_created x); [reflexivity|].
     destruct (pod_of st x); [|reflexivity]. destruct (filter_pod c st p); [|reflexivity].
     cbn [fst]. apply upd_job_ids, add_job_id.
+  - cbn [a_jobs]. rewrite map_map. apply map_ext. reflexivity.
 Qed.
 
 Lemma no_live_job_count st p : has_job false st p = false -> live_count st (p_id p) = 0.
@@ -165,6 +166,9 @@ Proof.
       assert (y = x) by (eapply (NoDup_key_inj j_id); eauto; congruence). subst y.
       unfold live_for in H. apply andb_true_iff in H. destruct H as [_ H].
       unfold add_job in H. destruct (j_created x); cbn in H; apply Z.eqb_eq in H; congruence.
+  - (* Restart: liveness of jobs is read off the API objects *)
+    eapply Z.le_trans; [|exact Hs]. unfold live_count at 1. cbn [a_jobs].
+    apply live_count_map_le. intros x _ H. exact H.
 Qed.
 
 Theorem history_single_job c ops : forall st,
